@@ -32,6 +32,11 @@ Definition w_ok : proj :=
 Definition w_garbage := mk [s_user; scmd "index" [] (Some (T2 "Result" (T2 "HashMap" (T0 "String") (T0 "User")) (T0 "String"))) []].
 Definition w_prefix := mk [s_user; scmd "by_name" [] (Some (T2 "HashMap" (T0 "String") (T0 "User"))) []].
 Definition w_prefix2 := mk [scmd "grid" [] (Some (T1 "Vec" (T1 "Vec" (T0 "String")))) []].
+(* batch 3 *)
+Definition w_tuple_map_field :=
+  mk [s_user; sstruct "Holder" [QTuple [T2 "HashMap" (T0 "String") (T0 "User"); T0 "bool"]]; scmd "hold" [("h", T0 "Holder")] None []].
+Definition w_vecvec_user := mk [s_user; scmd "grid_u" [] (Some (T1 "Vec" (T1 "Vec" (T0 "User")))) []].
+Definition w_prefix3 := mk [s_user; scmd "maps" [] (Some (T1 "Vec" (T2 "HashMap" (T0 "String") (T0 "User")))) []].
 Definition w_zod_enum := mk [s_status; scmd "get_status" [] (Some (T0 "Status")) []].
 Definition w_result1 := mk [s_user; scmd "load_user" [] (Some (T1 "Result" (T0 "User"))) []].
 Definition w_event_nested :=
